@@ -88,7 +88,14 @@ Section Indexed.
   }.
 
   (* while request n runs: sa = objects the storage handed out, wa = ids saved by the request *)
-  Record iinv (n : nat) (sa : list X) (wa : list id) (l : list X) : Prop := mkIInv {
+  (* provenance w.r.t. the store l0 the request started from: an index value is empty, minted by
+     this request, or was already carried by an object of l0 *)
+  Definition prov (n : nat) (l0 : list X) (x : X) : Prop :=
+    forall f, get f x = 0 \/ now_ n f (get f x) \/ exists y, In y l0 /\ get f y = get f x.
+
+  Record iinv (n : nat) (l0 : list X) (sa : list X) (wa : list id) (l : list X) : Prop := mkIInv {
+    ii_prov : forall x, In x l -> prov n l0 x;
+    ii_s_prov : forall x, In x sa -> prov n l0 x;
     ii_old : forall x f, In x l -> get f x = 0 \/ old (S n) f (get f x);
     ii_uniq : forall x y f, In x l -> In y l -> get f x = get f y -> get f x <> 0 -> xid x = xid y;
     ii_s_old : forall x f, In x sa -> get f x = 0 \/ old (S n) f (get f x);
@@ -101,25 +108,27 @@ Section Indexed.
   Definition field_ok (n : nat) (sa : list X) (x' : X) (f : F) : Prop :=
     get f x' = 0 \/ now_ n f (get f x') \/ exists x, In x sa /\ xid x = xid x' /\ get f x = get f x'.
 
-  Lemma iinv0 n l : ifresh n l -> iinv n [] [] l.
+  Lemma iinv0 n l : ifresh n l -> iinv n l [] [] l.
   Proof.
     intros [O U]. constructor; cbn; try tauto.
+    - intros x Hx f. right; right; exists x; auto.
     - intros x f Hx. destruct (O x f Hx); [left; auto|right]. eapply old_mono; [|eauto]. lia.
     - intros x f Hx Hn. destruct (O x f Hx) as [E|E].
       + rewrite E in Hn. apply now_nz in Hn. congruence.
       + eapply old_not_now; eauto.
   Qed.
-  Lemma iinv_fresh n sa wa l : iinv n sa wa l -> ifresh (S n) l.
-  Proof. intros I. constructor; [apply (ii_old _ _ _ _ I)|apply (ii_uniq _ _ _ _ I)]. Qed.
+  Lemma iinv_fresh n l0 sa wa l : iinv n l0 sa wa l -> ifresh (S n) l.
+  Proof. intros I. constructor; [apply (ii_old _ _ _ _ _ I)|apply (ii_uniq _ _ _ _ _ I)]. Qed.
 
-  Lemma iinv_sub n sa wa l l' : (forall y, In y l' -> In y l) -> iinv n sa wa l -> iinv n sa wa l'.
+  Lemma iinv_sub n l0 sa wa l l' : (forall y, In y l' -> In y l) -> iinv n l0 sa wa l -> iinv n l0 sa wa l'.
   Proof.
-    intros S [A B C D E G H]. constructor; intros; eauto.
+    intros S [P1 P2 A B C D E G H]. constructor; intros; eauto.
   Qed.
 
-  Lemma iinv_see n sa wa l x : In x l -> iinv n sa wa l -> iinv n (x :: sa) wa l.
+  Lemma iinv_see n l0 sa wa l x : In x l -> iinv n l0 sa wa l -> iinv n l0 (x :: sa) wa l.
   Proof.
-    intros Hx [A B C D E G H]. constructor; auto.
+    intros Hx [P1 P2 A B C D E G H]. constructor; auto.
+    - intros y [<-|Hy]; auto.
     - intros y f [<-|Hy]; auto.
     - intros y z f [<-|Hy] Hz; eauto.
     - intros y z f [<-|Hy] [<-|Hz] E1 E2.
@@ -130,17 +139,21 @@ Section Indexed.
     - intros y f [<-|Hy]; eauto.
   Qed.
 
-  Lemma iinv_put n sa wa l x' :
+  Lemma iinv_put n l0 sa wa l x' :
     (forall i, In i wa -> i = xid x') -> (forall f, field_ok n sa x' f) ->
-    iinv n sa wa l -> iinv n sa (xid x' :: wa) (put x' l).
+    iinv n l0 sa wa l -> iinv n l0 sa (xid x' :: wa) (put x' l).
   Proof.
-    intros W FO [A B C D E G H].
+    intros W FO [P1 P2 A B C D E G H].
     assert (K : forall y f, In y l -> xid y <> xid x' -> get f x' = get f y -> get f x' <> 0 -> False).
     { intros y f Hy Hne E1 E2. destruct (FO f) as [Z|[Nw|[x0 [Hx0 [I0 E0]]]]].
       - congruence.
       - apply Hne. apply W. eapply G; eauto. rewrite <- E1. exact Nw.
       - apply Hne. rewrite <- I0. symmetry. apply (D x0 y f); auto; congruence. }
     constructor.
+    - intros y Hy. apply in_put in Hy as [->|[Hy _]]; auto.
+      intros f. destruct (FO f) as [Z|[Nw|[x0 [Hx0 [I0 E0]]]]]; auto.
+      rewrite <- E0. apply P2; auto.
+    - auto.
     - intros y f Hy. apply in_put in Hy as [->|[Hy _]]; auto.
       destruct (FO f) as [Z|[Nw|[x0 [Hx0 [I0 E0]]]]]; auto. rewrite <- E0. auto.
     - intros y z f Hy Hz E1 E2.
@@ -197,6 +210,8 @@ Definition afresh := ifresh asession afield a_id aget aold.
 Definition gfresh := ifresh gsession gfield g_id gget gold.
 Definition ainv := iinv asession afield a_id aget aold anow.
 Definition ginv := iinv gsession gfield g_id gget gold gnow.
+Definition aprov := prov asession afield aget anow.
+Definition gprov := prov gsession gfield gget gnow.
 
 (* between requests *)
 Definition fresh (n : nat) (st : store) : Prop := afresh n (st_asess st) /\ gfresh n (st_gsess st).
@@ -215,8 +230,8 @@ Definition see (c : call) (r : reply) (k : seen) : seen :=
   | _ => k
   end.
 
-Definition rinv (n : nat) (k : seen) (st : store) : Prop :=
-  ainv n (sn_a k) (sn_wa k) (st_asess st) /\ ginv n (sn_g k) (sn_wg k) (st_gsess st).
+Definition rinv (n : nat) (st0 : store) (k : seen) (st : store) : Prop :=
+  ainv n (st_asess st0) (sn_a k) (sn_wa k) (st_asess st) /\ ginv n (st_gsess st0) (sn_g k) (sn_wg k) (st_gsess st).
 
 (* each Save writes indexes that are empty, minted now, or copied from an object the storage
    returned (same id); a request saves under one session id and one grant id only *)
@@ -244,26 +259,26 @@ Qed.
 Lemma find_in {X} (f : X -> bool) l x : find f l = Some x -> In x l /\ f x = true.
 Proof. intros H. apply find_some in H. exact H. Qed.
 
-Lemma fresh_rinv0 n st : fresh n st -> rinv n seen0 st.
+Lemma fresh_rinv0 n st : fresh n st -> rinv n st seen0 st.
 Proof.
   intros [A G]. split.
   - eapply iinv0; eauto using aold_mono, aold_not_now, anow_nz.
   - eapply iinv0; eauto using gold_mono, gold_not_now, gnow_nz.
 Qed.
-Lemma rinv_fresh n k st : rinv n k st -> fresh (S n) st.
+Lemma rinv_fresh n st0 k st : rinv n st0 k st -> fresh (S n) st.
 Proof. intros [A G]. split; eapply iinv_fresh; eauto. Qed.
 
 Definition reply_in (st : store) (r : reply) : Prop :=
   match r with RASess s => In s (st_asess st) | RGSess g => In g (st_gsess st) | _ => True end.
 
 (* one storage call under the guarantee *)
-Lemma exec_rinv n k c st :
-  guar n k c -> rinv n k st -> rinv n (see c (snd (exec c st)) k) (fst (exec c st)).
+Lemma exec_rinv n st0 k c st :
+  guar n k c -> rinv n st0 k st -> rinv n st0 (see c (snd (exec c st)) k) (fst (exec c st)).
 Proof.
   intros G [IA IG].
-  assert (SA : forall l', (forall y, In y l' -> In y (st_asess st)) -> ainv n (sn_a k) (sn_wa k) l')
+  assert (SA : forall l', (forall y, In y l' -> In y (st_asess st)) -> ainv n (st_asess st0) (sn_a k) (sn_wa k) l')
     by (intros; eapply iinv_sub; eauto).
-  assert (SG : forall l', (forall y, In y l' -> In y (st_gsess st)) -> ginv n (sn_g k) (sn_wg k) l')
+  assert (SG : forall l', (forall y, In y l' -> In y (st_gsess st)) -> ginv n (st_gsess st0) (sn_g k) (sn_wg k) l')
     by (intros; eapply iinv_sub; eauto).
   destruct c; cbn in *.
   - destruct (find_client i (st_clients st)); split; auto.
@@ -286,12 +301,12 @@ Proof.
 Qed.
 
 (* a disciplined program keeps the invariant, whatever it does *)
-Lemma run_seq_rinv {A} n (p : prog A) : forall k st,
-  disciplined n k p -> rinv n k st -> exists k', rinv n k' (fst (run_seq p st)).
+Lemma run_seq_rinv {A} n st0 (p : prog A) : forall k st,
+  disciplined n k p -> rinv n st0 k st -> exists k', rinv n st0 k' (fst (run_seq p st)).
 Proof.
   induction p as [a|c kont IH|o p IH]; cbn; intros k st D R.
   - exists k; auto.
-  - destruct D as [G D]. pose proof (exec_rinv n k c st G R) as R'.
+  - destruct D as [G D]. pose proof (exec_rinv n st0 k c st G R) as R'.
     destruct (exec c st) as [st' r]. cbn in R'. eapply IH; eauto.
   - eauto.
 Qed.
@@ -299,8 +314,19 @@ Qed.
 Theorem disciplined_fresh {A} n (p : prog A) st :
   disciplined n seen0 p -> fresh n st -> fresh (S n) (fst (run_seq p st)).
 Proof.
-  intros D F. destruct (run_seq_rinv n p seen0 st D (fresh_rinv0 _ _ F)) as [k' R].
+  intros D F. destruct (run_seq_rinv n st p seen0 st D (fresh_rinv0 _ _ F)) as [k' R].
   eapply rinv_fresh; eauto.
+Qed.
+
+(* provenance: after a disciplined request, every index value in the store is empty, minted by this
+   request, or was carried by an object of the store the request started from *)
+Theorem disciplined_prov {A} n (p : prog A) st :
+  disciplined n seen0 p -> fresh n st ->
+  (forall s, In s (st_asess (fst (run_seq p st))) -> aprov n (st_asess st) s) /\
+  (forall g, In g (st_gsess (fst (run_seq p st))) -> gprov n (st_gsess st) g).
+Proof.
+  intros D F. destruct (run_seq_rinv n st p seen0 st D (fresh_rinv0 _ _ F)) as [k' [RA RG]].
+  split; [apply (ii_prov _ _ _ _ _ _ _ _ _ _ _ RA)|apply (ii_prov _ _ _ _ _ _ _ _ _ _ _ RG)].
 Qed.
 
 (* ================================================================================== *)
